@@ -179,6 +179,10 @@ def single_def(fnnode, name):
     if len(defs) != 1:
         return None
     d = defs[0]
+    a_ = getattr(fnnode, 'args', None)
+    if a_ is not None and name in {x.arg for x in a_.posonlyargs + a_.args + a_.kwonlyargs} | {getattr(a_.vararg, 'arg', None), getattr(a_.kwarg, 'arg', None)} \
+            and d not in getattr(fnnode, 'body', ()):
+        return None        # a parameter re-bound under a condition has two reaching definitions
     if isinstance(d, ast.Assign) and len(d.targets) == 1:
         t = d.targets[0]
         if isinstance(t, ast.Name):
